@@ -34,6 +34,7 @@ type structOffender struct {
 //
 //	writers:<pkgname>.<Type>.<field>=<funcKey>,<funcKey>,…
 //	nonblocking:<funcKey>,<funcKey>,…   (no blocking channel operation in the bodies: every select has a default, no bare send / receive)
+//	atomicstore:<funcKey>=<Type>.<field>:<true|false>   (on every path from entry to a return the function stores that constant into that sync/atomic.Bool field)
 //	callswith:<funcKey>=<pkgpath>.<Func>(<Type>.<field>)   (the function or one of its closures calls Func with a slice of that field of a heap object)
 //	allpaths:<funcKey>=close(<field>)|go(<method name>)|…   (every path from entry to a return passes one of these)
 //	nocall:<funcKey-prefix-list>-><funcKey-prefix-list>
@@ -66,6 +67,8 @@ func (eng *Engine) structuralObligations(pc *PropConfig) []structObl {
 			out = append(out, eng.nonBlockingObl(strings.TrimPrefix(s, "nonblocking:")))
 		case strings.HasPrefix(s, "callswith:"):
 			out = append(out, eng.callsWithObl(strings.TrimPrefix(s, "callswith:")))
+		case strings.HasPrefix(s, "atomicstore:"):
+			out = append(out, eng.atomicStoreObl(strings.TrimPrefix(s, "atomicstore:")))
 		case strings.HasPrefix(s, "allpaths:"):
 			out = append(out, eng.allPathsObl(strings.TrimPrefix(s, "allpaths:")))
 		case strings.HasPrefix(s, "nocall:"):
@@ -620,6 +623,78 @@ func (eng *Engine) nonBlockingObl(spec string) structObl {
 	}
 	if len(bad) > 0 {
 		return structObl{Name: name, OK: false, Detail: strings.Join(bad, "; ")}
+	}
+	return structObl{Name: name, OK: true}
+}
+
+// atomicstore:<funcKey>=<Type>.<field>:<true|false> : in the function's entry block chain - on every path to a return
+// that does not pass an earlier return - there is a call (*sync/atomic.Bool).Store(<const>) whose receiver is the
+// address of <field> of a <Type> object.  sync/atomic cells are not tracked by the symbolic execution, so that a
+// constructor leaves such a flag in its initial protocol state can only be stated structurally.  Checked conservatively:
+// the store must be in a block that dominates every SUCCESS return (a return whose last result is the nil error).
+func (eng *Engine) atomicStoreObl(spec string) structObl {
+	name := "atomicstore:" + spec
+	parts := strings.SplitN(spec, "=", 2)
+	if len(parts) != 2 || !strings.Contains(parts[1], ":") {
+		return structObl{Name: name, OK: false, Detail: "bad spec"}
+	}
+	fn := eng.FuncByKey(strings.TrimSpace(parts[0]))
+	if fn == nil {
+		return structObl{Name: name, OK: false, Detail: "contract-target-missing: " + parts[0]}
+	}
+	k := strings.LastIndexByte(parts[1], ':')
+	field, want := parts[1][:k], parts[1][k+1:]
+	var storeBlocks []*ssa.BasicBlock
+	for _, b := range fn.Blocks {
+		for _, ins := range b.Instrs {
+			ci, ok := ins.(ssa.CallInstruction)
+			if !ok {
+				continue
+			}
+			cal := ci.Common().StaticCallee()
+			if cal == nil || cal.Name() != "Store" || pkgPathOf(cal) != "sync/atomic" || len(ci.Common().Args) != 2 {
+				continue
+			}
+			fa, ok := ci.Common().Args[0].(*ssa.FieldAddr)
+			if !ok {
+				continue
+			}
+			pt := fa.X.Type().Underlying().(*types.Pointer).Elem()
+			if typeKey(pt)+"."+under(pt).(*types.Struct).Field(fa.Field).Name() != field {
+				continue
+			}
+			cst, ok := ci.Common().Args[1].(*ssa.Const)
+			if !ok || cst.Value == nil || cst.Value.String() != want {
+				continue
+			}
+			storeBlocks = append(storeBlocks, b)
+		}
+	}
+	if len(storeBlocks) == 0 {
+		return structObl{Name: name, OK: false, Detail: "no (*atomic.Bool).Store(" + want + ") on " + field + " in " + parts[0]}
+	}
+	// every success return must be dominated by a storing block
+	for _, b := range fn.Blocks {
+		if len(b.Instrs) == 0 {
+			continue
+		}
+		ret, ok := b.Instrs[len(b.Instrs)-1].(*ssa.Return)
+		if !ok || len(ret.Results) == 0 {
+			continue
+		}
+		last := ret.Results[len(ret.Results)-1]
+		if c, isC := last.(*ssa.Const); !isC || !c.IsNil() {
+			continue // an error return
+		}
+		dominated := false
+		for _, sb := range storeBlocks {
+			if sb.Dominates(b) {
+				dominated = true
+			}
+		}
+		if !dominated {
+			return structObl{Name: name, OK: false, Detail: "a success return of " + parts[0] + " is not preceded by the store on every path"}
+		}
 	}
 	return structObl{Name: name, OK: true}
 }
